@@ -30,6 +30,10 @@ def penetrant_data_contract(n, stated, units=KG):
     def c(ex, b):
         comp = b['component']
         seq = experiments_of(comp, n, stated, units)
+        me = b.get('self')
+        allx = me.f.get('ideal_experiments') if isinstance(me, Obj) else None
+        if isinstance(allx, Obj) and isinstance(allx.f.get('experiments'), Seq):
+            ex.assume(cmp('>=', allx.f['experiments'].n, lift(n)), "a component's experiments are among the membrane's experiments")
         ex.exp_accessed = ACCESSED[id(seq)]
         return Obj('IdealExperiments', dict(experiments=seq))
     return c
